@@ -57,3 +57,13 @@ Theorem C17_payload :
     e_num (mk_event c k n m) = n /\ e_kind (mk_event c k n m) = k.
 Proof. intros. repeat split. Qed.
 Print Assumptions C17_payload.
+
+(* tie to the current sources: the wire names of the three event types *)
+From UVG Require Import Consts.
+Theorem C17_event_names_from_source :
+  gen_event_type_names =
+    [("PatchDownload", "__patch_download__"); ("PatchInstallFailure", "__patch_install_failure__");
+     ("PatchInstallSuccess", "__patch_install__")]%string /\
+  gen_events_url_suffix = "/api/v1/patches/events"%string.
+Proof. split; reflexivity. Qed.
+Print Assumptions C17_event_names_from_source.
